@@ -20,6 +20,9 @@ EXPLANATION = (
     'cancels the RSocket subscription unless the stream already terminated; terminal signals of the stream mark it '
     'done; (e) the channel handler adapter wires the observable to a publisher and the observer to a subscriber with '
     'the channel\'s limit. Not decided: element-for-element equivalence with the core API.')
+EXPLANATION_ADDED = ("(g) the observable-to-publisher feeders turn every notification into its signal once (OnNext/OnError/OnCompleted, generator values, end and failure), credit published on the feedback subject reaches the feeder's queue and its completion cancels the feeder, the publisher wrapper subscribes the subscriber through its adapter and forwards request/cancel; the request is sent from inside the task whose cancellation sends CANCEL; batch counting of the Rx subscribers (C06.a).")
+EXPLANATION = EXPLANATION.replace(' Not decided', ' ' + EXPLANATION_ADDED + ' Not decided', 1) \
+    if ' Not decided' in EXPLANATION else EXPLANATION + ' ' + EXPLANATION_ADDED
 ASSUMPTIONS = COMMON_ASSUMPTIONS
 
 PKGS = ('reactivex', 'rx_support')
